@@ -59,6 +59,16 @@ void DecodeDATA(IntType CodeIntType, IntType DataIntType) {
         ValOK = True;
         for (z = 1; ValOK && (z <= ArgCnt); z++) {
             EvalStrExpression(&ArgStr[z], &t);
+
+            /* one word per value resp. per character, at most four bytes each */
+
+            if (SetMaxCodeLen(
+                        (CodeLen + 2 + ((t.Typ == TempString) ? t.Contents.str.len : 0))
+                        * 4)) {
+                WrStrErrorPos(ErrNum_CodeOverflow, &ArgStr[z]);
+                ValOK = False;
+                break;
+            }
             if ((t.Typ == TempInt) && mFirstPassUnknown(t.Flags)) {
                 t.Contents.Int &= UnknownMask;
             }
